@@ -427,7 +427,7 @@ impl TryFrom<&mut Peekable<Lexer>> for ParserNode {
                                     lex.raw_token,
                                 ))
                             } else if let Ok(imm) = next.as_imm() {
-                                if let Ok(()) = lex.peek_any()?.as_lparen() {
+                                if let Ok(()) = lex.peek_any().and_then(|t| t.as_lparen()) {
                                     lex.get_any()?;
                                     let rs1 = lex.get_reg()?;
                                     lex.expect_rparen()?;
@@ -471,7 +471,7 @@ impl TryFrom<&mut Peekable<Lexer>> for ParserNode {
                             let rd = lex.get_reg()?;
                             let next = lex.get_any()?;
                             return if let Ok(imm) = next.as_imm() {
-                                if let Ok(()) = lex.peek_any()?.as_lparen() {
+                                if let Ok(()) = lex.peek_any().and_then(|t| t.as_lparen()) {
                                     lex.get_any()?;
                                     let rs1 = lex.get_reg()?;
                                     lex.expect_rparen()?;
@@ -533,7 +533,7 @@ impl TryFrom<&mut Peekable<Lexer>> for ParserNode {
                             let next = lex.get_any()?;
 
                             return if let Ok(imm) = next.as_imm() {
-                                if let Ok(()) = lex.peek_any()?.as_lparen() {
+                                if let Ok(()) = lex.peek_any().and_then(|t| t.as_lparen()) {
                                     lex.get_any()?;
                                     let rs1 = lex.get_reg()?;
                                     lex.expect_rparen()?;
@@ -544,7 +544,7 @@ impl TryFrom<&mut Peekable<Lexer>> for ParserNode {
                                         imm,
                                         lex.raw_token,
                                     ))
-                                } else if let Ok(tmp) = lex.peek_any()?.as_reg() {
+                                } else if let Ok(tmp) = lex.peek_any().and_then(|t| t.as_reg()) {
                                     lex.get_any()?;
                                     Err(LexError::NeedTwoNodes(
                                         Box::new(ParserNode::new_iarith(
